@@ -523,7 +523,10 @@ class Body:
             return e
         if e[0] == "var":
             defs = self.defs.get(e[1], [])
-            if len(defs) == 1 and not self.is_param(e[1]):
+            l = e[1]
+            mutated = (self.defs.get(("partial", l)) or l in self.mutborrows) and \
+                not self.locals[l]["ty"].startswith("&")
+            if len(defs) == 1 and not self.is_param(l) and not mutated:
                 return self.expand_vars(strip_sites(self.def_expr(defs[0][0], defs[0][1])), depth + 1)
             return e
         if e[0] in ("const", "param", "tmp", "capture"):
@@ -980,7 +983,16 @@ class FactWalker:
 
     def __init__(self, body, relevant=None, cut_back_edges=True):
         self.b = body
-        self.relevant = relevant or (lambda a: True)
+        rel = relevant or (lambda a: True)
+        memo = {}
+
+        def relevant_memo(a):
+            r = memo.get(a)
+            if r is None:
+                r = bool(rel(a))
+                memo[a] = r
+            return r
+        self.relevant = relevant_memo
         self.cut = set(body.back_edges()) if cut_back_edges else set()
         self._edges = {}
         self._kills = {}
@@ -1179,3 +1191,30 @@ def root_local_expr(e):
             e = e[2]
         else:
             return None
+
+
+def anon(e, table=None):
+    """replace variable / parameter / capture names by $1, $2.. in order of first appearance, so that a
+    rendering used in a finding key does not change when a local is renamed"""
+    table = table if table is not None else {}
+    if not isinstance(e, tuple) or not e:
+        return e
+    k = e[0]
+    if k in ("var", "param"):
+        key = (k, e[1])
+        if key not in table:
+            table[key] = "$%d" % (len(table) + 1)
+        return (k, e[1], table[key])
+    if k == "capture":
+        key = (k, e[1])
+        if key not in table:
+            table[key] = "$%d" % (len(table) + 1)
+        return (k, table[key])
+    if k == "const":
+        return e
+    return tuple(anon(x, table) if isinstance(x, tuple) and x and isinstance(x[0], str)
+                 else (tuple(anon(y, table) for y in x) if isinstance(x, tuple) else x) for x in e)
+
+
+def render_key(e, table=None):
+    return render(anon(e, table))
